@@ -55,7 +55,10 @@ CLAIMED.update({
         "may record, set-start exactly one, sweeps/clear/scratch growth/set_state none, and after any schedule of runs and clears every level's log "
         "grew by exactly the number of iterations. Correspondence compares the real probe model's call log after every operation, with all read "
         "accessors touched in between (componentwise extras counted separately).",
-   note=MACH_NOTE, technique="Coq proof (ghost call log, induction over op lists) + vm_compute correspondence", ref="DESIGN.md section 3, C18"),
+   note=MACH_NOTE + " Source tie (Props/C18_src.v): a census of every file of epsie/ regenerated on every run (tools/py2coq.py): the model is called at "
+        "exactly three places (start-position setter, Chain.step - once, outside any loop - and the componentwise virtual moves), the model object is "
+        "read nowhere else than in the constructors that hand it on, and Chain.step is called from exactly two loops.",
+   technique="Coq proof (ghost call log, induction over op lists) + vm_compute correspondence", ref="DESIGN.md section 3, C18"),
 })
 
 CLAIMED['C15'] = dict(
